@@ -627,4 +627,6 @@ PROPS['C06']['level_note'] = ('The key contract of bitsets is proved from the pa
 PROPS['C18']['level_note'] = ('powerset() is no longer assumed: every subset once and the complete shortlex order (sizes and the tie order among equal-size subsets) are proved from the '
                               'bitsets source; the bin()-based helpers (indexes_optimized, count) are proved as well (DESIGN 11.22), relative to the validated identification of '
                               'CPython\'s bin / slicing / str.count with the Lean definitions.')
+# MutableSet.__isub__ (verified from the interpreter's own _collections_abc.py) and the lemma that ties `-=` to the element-wise removal (DESIGN 11.20)
+PROPS['C13']['units'] += [u for u in ('stdlib.MutableSet.__isub__', 'lemma.discard_fold_present') if u not in PROPS['C13']['units']]
 NOT_APPLICABLE = {}
